@@ -1227,3 +1227,217 @@ Proof.
     exists n. split; [reflexivity|]. intros fe n' He. eapply explode_is_resolve; eassumption.
   - intros fe d' He. eapply vget_veq; [eapply explode_is_resolve; eassumption | exact Hg].
 Qed.
+
+(* ================================================================== *)
+(* 9. route 2 literally: the model's traverse on the exploded tree     *)
+(* ================================================================== *)
+Lemma NoDup_nodupb l : NoDup l -> nodupb l = true.
+Proof.
+  induction 1 as [|k r Hn _ IH]; [reflexivity|]. cbn [nodupb]. rewrite IH, andb_true_r.
+  apply negb_true_iff. apply mem_false. exact Hn.
+Qed.
+
+Lemma Forall_replace_first (P : node -> Prop) k v acc :
+  P v -> Forall (fun kv => P (snd kv)) acc -> Forall (fun kv => P (snd kv)) (replace_first k v acc).
+Proof.
+  intros Hv. induction acc as [|[k' v'] r IH]; intros H; [constructor|]. cbn [replace_first].
+  inversion H as [|? ? Hh Ht]; subst. destruct (str_eqb k k'); constructor; try assumption. apply IH, Ht.
+Qed.
+
+(* values of the accumulator keep a property P that every child explode establishes *)
+Section ValuesInv.
+  Variable rec : node -> res node.
+  Variables (P Q T : node -> Prop).
+  Hypothesis HQ : forall v v', Q v -> rec v = ROk v' -> P v'.
+  Hypothesis HT : forall t a tes, T t -> rec t = ROk (Mp a tes) -> Forall (fun kv => Q (snd kv)) tes.
+
+  Definition allP (acc : entries) : Prop := Forall (fun kv => P (snd kv)) acc.
+
+  Lemma override_entry_inv texts key v start acc acc' :
+    Q v -> allP acc -> override_entry rec texts key v start acc = ROk acc' -> allP acc'.
+  Proof.
+    intros Hq Ha H. unfold override_entry in H. apply rbind_ok in H as (v' & Hv & H).
+    pose proof (HQ _ _ Hq Hv) as Hp.
+    destruct (has_key key acc).
+    - injection H as <-. apply Forall_replace_first; assumption.
+    - destruct (later_has texts (start + 2) key); injection H as <-; [exact Ha|].
+      unfold allP. apply Forall_app. split; [exact Ha | constructor; [exact Hp | constructor]].
+  Qed.
+
+  Lemma override_all_inv texts tes : forall start acc acc',
+    Forall (fun kv => Q (snd kv)) tes -> allP acc -> override_all rec texts tes start acc = ROk acc' -> allP acc'.
+  Proof.
+    induction tes as [|[k v] r IH]; intros start acc acc' Hq Ha H; cbn [override_all] in H.
+    - injection H as <-. exact Ha.
+    - inversion Hq as [|? ? Hv Hr]; subst. apply rbind_ok in H as (acc1 & H1 & H).
+      eapply IH; [exact Hr | | exact H]. eapply override_entry_inv; eassumption.
+  Qed.
+
+  Definition Titem (x : node) : Prop := match x with Al t => T t | _ => True end.
+
+  Lemma apply_alias_inv texts item idx acc acc' :
+    Titem item -> allP acc -> apply_alias rec texts item idx acc = ROk acc' -> allP acc'.
+  Proof.
+    intros Ht Ha H. destruct item as [a s|a l|a es|t]; cbn [apply_alias] in H; try (injection H as <-; exact Ha).
+    apply rbind_ok in H as (t' & Hr & H). destruct t' as [a s|a l|a tes|t']; try discriminate.
+    eapply override_all_inv; [eapply HT; eassumption | exact Ha | exact H].
+  Qed.
+
+  Lemma apply_seq_rev_inv texts ritems : forall acc acc',
+    Forall (fun ji => Titem (snd ji)) ritems -> allP acc -> apply_seq_rev rec texts ritems acc = ROk acc' -> allP acc'.
+  Proof.
+    induction ritems as [|[j item] r IH]; intros acc acc' Ht Ha H; cbn [apply_seq_rev] in H.
+    - injection H as <-. exact Ha.
+    - inversion Ht as [|? ? Hh Hr]; subst. apply rbind_ok in H as (acc1 & H1 & H).
+      eapply IH; [exact Hr | | exact H]. eapply apply_alias_inv; eassumption.
+  Qed.
+
+  Definition Tvalue (v : node) : Prop :=
+    match v with
+    | Sq _ items => Forall Titem items
+    | _ => Titem v
+    end.
+
+  Lemma indexed_Forall {A : Type} (R : A -> Prop) l : forall i, Forall R l -> Forall (fun ji => R (snd ji)) (indexed i l).
+  Proof. induction l as [|a r IH]; intros i H; cbn [indexed]; [constructor|]. inversion H; subst. constructor; [assumption | apply IH; assumption]. Qed.
+
+  Lemma recon_inv texts es : forall i acc acc',
+    Forall (fun kv => if is_merge (fst kv) then Tvalue (snd kv) else Q (snd kv)) es ->
+    allP acc -> recon rec texts es i acc = ROk acc' -> allP acc'.
+  Proof.
+    induction es as [|[k v] r IH]; intros i acc acc' He Ha H; cbn [recon] in H.
+    - injection H as <-. exact Ha.
+    - inversion He as [|? ? Hh Hr]; subst. cbn [fst snd] in Hh.
+      apply rbind_ok in H as (acc1 & H1 & H). eapply IH; [exact Hr | | exact H].
+      destruct (is_merge k).
+      + destruct v as [a s|a l|a es'|t]; cbn [Tvalue] in Hh; try (eapply apply_alias_inv; eassumption).
+        eapply apply_seq_rev_inv; [|exact Ha | exact H1]. apply Forall_rev. apply indexed_Forall. exact Hh.
+      + eapply override_entry_inv; eassumption.
+  Qed.
+End ValuesInv.
+
+Lemma nodup_tree_map a es : nodup_tree (Mp a es) = nodupb (keys es) && forallb (fun kv => nodup_tree (snd kv)) es.
+Proof. reflexivity. Qed.
+
+Theorem explode_nodup_tree fe : forall fs d d', merge_simple_doc fs d = true -> explode fe d = ROk d' -> nodup_tree d' = true.
+Proof.
+  induction fe as [|f IHf]; intros fs d d' Hd H; [discriminate|].
+  destruct fs as [|g]; [discriminate|].
+  cbn [merge_simple_doc explode] in *.
+  destruct d as [a s|a l|a es|t]; cbn [dom_step explode_step] in *.
+  - injection H as <-. reflexivity.
+  - apply rbind_ok in H as (l' & Hl & H). injection H as <-. cbn [nodup_tree].
+    clear - IHf Hd Hl. revert l' Hl. induction l as [|x r IHr]; intros l' Hl; cbn [map_res forallb] in Hd, Hl.
+    + injection Hl as <-. reflexivity.
+    + apply andb_true_iff in Hd as [Hx Hr]. apply rbind_ok in Hl as (x' & Ex & Hl). apply rbind_ok in Hl as (r' & Er & Hl).
+      injection Hl as <-. cbn [forallb]. rewrite (IHf g x x' Hx Ex), (IHr Hr r' Er). reflexivity.
+  - pose proof Hd as Hok. unfold map_ok in Hok. apply andb_true_iff in Hok as [Hok Hbm]. apply andb_true_iff in Hok as [Hnodup Hdm].
+    rewrite forallb_forall in Hdm.
+    destruct (has_merge es) eqn:Hm; apply rbind_ok in H as (es' & He & H); injection H as <-; rewrite nodup_tree_map.
+    + (* reconstructed map *)
+      assert (Hn : NoDup (keys es')) by (eapply recon_nodup; [|exact He]; constructor).
+      rewrite (NoDup_nodupb _ Hn). cbn [andb].
+      set (P := fun v => nodup_tree v = true).
+      set (Q := fun v => merge_simple_doc g v = true \/ (clean v = true /\ nodup_tree v = true)).
+      set (T := fun t => merge_simple_doc g t = true).
+      assert (HQ : forall v v', Q v -> explode f v = ROk v' -> P v').
+      { intros v v' [Hq|[Hc Hq]] Hv; [eapply IHf; eassumption|]. rewrite (explode_clean_id _ _ _ Hc Hv). exact Hq. }
+      assert (HT : forall t a0 tes, T t -> explode f t = ROk (Mp a0 tes) -> Forall (fun kv => Q (snd kv)) tes).
+      { intros t a0 tes Ht Hr. pose proof (IHf g t _ Ht Hr) as Hnt. pose proof (explode_clean _ _ _ Hr) as Hc.
+        rewrite nodup_tree_map in Hnt. apply andb_true_iff in Hnt as [_ Hnt]. rewrite clean_map in Hc. apply andb_true_iff in Hc as [_ Hc].
+        rewrite forallb_forall in Hnt. unfold entries_clean in Hc. rewrite forallb_forall in Hc.
+        apply Forall_forall. intros kv Hkv. right. split; [|apply Hnt, Hkv].
+        specialize (Hc kv Hkv). unfold entry_clean in Hc. apply andb_true_iff in Hc as [_ Hc]. exact Hc. }
+      assert (Hall : allP P es').
+      { eapply (recon_inv (explode f) P Q T HQ HT); [| constructor | exact He].
+        apply Forall_forall. intros [k v] Hkv. cbn [fst snd]. destruct (is_merge k) eqn:Ek.
+        - (* the merge value: its targets are in the domain *)
+          destruct (before_merge es) as [[pre mv]|] eqn:Ebm; [|apply before_merge_none in Ebm; congruence].
+          destruct (before_merge_split _ _ _ Ebm) as (mk & post & Hes & Hmk & Hpre).
+          assert (v = mv) as ->.
+          { (* the merge key occurs once *)
+            apply nodupb_NoDup in Hnodup. apply is_merge_eq in Ek, Hmk. subst k mk.
+            rewrite Hes in Hkv, Hnodup. unfold keys in Hnodup. rewrite map_app in Hnodup. cbn [map fst] in Hnodup.
+            apply in_app_or in Hkv as [Hkv|[Hkv|Hkv]].
+            - pose proof (Hpre _ Hkv) as Hf. cbn in Hf. discriminate.
+            - injection Hkv as <-. reflexivity.
+            - exfalso. apply NoDup_app_r in Hnodup. inversion Hnodup as [|? ? Hnn _]; subst. apply Hnn.
+              apply in_map_iff. exists (merge_key, v). split; [reflexivity | exact Hkv]. }
+          destruct (merge_targets mv) as [ts|] eqn:Ets; [|discriminate].
+          apply andb_true_iff in Hbm as [Hbm _]. apply andb_true_iff in Hbm as [_ Hdts]. rewrite forallb_forall in Hdts.
+          destruct mv as [a0 s|a0 items|a0 es0|t]; cbn [merge_targets] in Ets; try discriminate; cbn [Tvalue Titem].
+          + apply alias_targets_items in Ets. subst items. apply Forall_forall. intros x Hx.
+            apply in_map_iff in Hx as (t & <- & Ht). cbn [Titem]. apply Hdts, Ht.
+          + injection Ets as <-. apply Hdts. left. reflexivity.
+        - left. pose proof (Hdm _ Hkv) as Hd0. cbn [fst snd] in Hd0. rewrite Ek in Hd0. exact Hd0. }
+      apply forallb_forall. intros kv Hkv. unfold allP in Hall. rewrite Forall_forall in Hall. apply Hall, Hkv.
+    + rewrite (map_entries_keys _ _ _ He), Hnodup. cbn [andb].
+      pose proof (has_merge_false_all _ Hm) as Hall.
+      clear - IHf Hdm Hall He. revert es' He. induction es as [|[k v] r IHr]; intros es' He; cbn [map_entries] in He.
+      * injection He as <-. reflexivity.
+      * apply rbind_ok in He as (v' & Ev & He). apply rbind_ok in He as (r' & Er & He). injection He as <-.
+        cbn [forallb snd].
+        pose proof (Hdm (k, v) (or_introl eq_refl)) as Hd0. pose proof (Hall (k, v) (or_introl eq_refl)) as Hf. cbn [fst snd] in Hd0, Hf.
+        rewrite Hf in Hd0. rewrite (IHf g v v' Hd0 Ev). cbn [andb].
+        apply IHr; [intros kv Hkv; apply Hdm; right; exact Hkv | intros kv Hkv; apply Hall; right; exact Hkv | exact Er].
+  - eapply IHf; eassumption.
+Qed.
+
+(* on a tree without aliases and merge keys whose maps have distinct keys, the model's traverse reads the value *)
+Lemma in_of_lookup k es v : lookup_entry k es = Some v -> In (k, v) es.
+Proof.
+  induction es as [|[k' v'] r IH]; cbn [lookup_entry]; [discriminate|].
+  destruct (str_eqb k k') eqn:E; intros H; [injection H as <-; apply str_eqb_eq in E; subst; left; reflexivity | right; apply IH, H].
+Qed.
+
+Theorem traverse_clean p : forall d F r x,
+  clean d = true -> nodup_tree d = true -> traverse F d p = ROk r -> vget p (value_of d) = Some x ->
+  exists n, r = TNode n /\ value_of n = x.
+Proof.
+  induction p as [|s p IH]; intros d F r x Hc Hn Ht Hg.
+  - cbn in Ht, Hg. injection Ht as <-. injection Hg as <-. exists d. split; reflexivity.
+  - cbn [traverse] in Ht. apply rbind_ok in Ht as (r1 & Hs & Ht). unfold traverse_step in Hs.
+    destruct d as [a0 s0|a0 l|a0 es|t0]; cbn [follow value_of clean nodup_tree] in *; try discriminate.
+    + destruct s; cbn in Hg; discriminate.
+    + destruct s as [k|i]; cbn [vget] in Hg; [discriminate|].
+      rewrite nth_error_map in Hg. destruct (nth_error l i) as [n1|] eqn:En; cbn [option_map] in Hg; [|discriminate].
+      injection Hs as <-. apply andb_true_iff in Hc as [_ Hc]. rewrite forallb_forall in Hc, Hn.
+      apply nth_error_In in En. eapply IH; [apply Hc, En | apply Hn, En | exact Ht | exact Hg].
+    + destruct s as [k|i]; cbn [vget] in Hg; [|discriminate].
+      fold entry_value in Hg. rewrite vlookup_valued in Hg.
+      destruct (lookup_entry k es) as [v1|] eqn:El; cbn [option_map] in Hg; [|discriminate].
+      apply rbind_ok in Hs as (o & Ho & Hs). injection Hs as <-.
+      apply andb_true_iff in Hc as [_ Hc]. apply andb_true_iff in Hn as [Hnk Hn].
+      destruct F as [|F]; cbn [tlook] in Ho; [discriminate|].
+      rewrite tlook_step_explicit in Ho.
+      * injection Ho as <-. rewrite El in Ht. pose proof (in_of_lookup _ _ _ El) as Hin.
+        rewrite forallb_forall in Hc, Hn. specialize (Hc _ Hin). specialize (Hn _ Hin). cbn [fst snd] in Hc, Hn.
+        apply andb_true_iff in Hc as [_ Hc]. eapply IH; eassumption.
+      * intros kv Hkv. rewrite forallb_forall in Hc. specialize (Hc _ Hkv). apply andb_true_iff in Hc as [Hm _].
+        apply negb_true_iff in Hm. exact Hm.
+      * apply nodupb_NoDup, Hnk.
+Qed.
+
+(* route 2 as the model runs it: explode the document, then traverse the exploded tree *)
+Theorem route2_on_domain fs d v p x fe d' F r :
+  merge_simple_doc fs d = true -> resolve fs d = Some v -> vget p v = Some x ->
+  explode fe d = ROk d' -> traverse F d' p = ROk r ->
+  exists n, r = TNode n /\ veq (value_of n) x.
+Proof.
+  intros Hd Hr Hg He Ht.
+  destruct (vget_veq p (value_of d') v x (explode_is_resolve fe fs d d' v Hd He Hr) Hg) as (x1 & Hx1 & Hv).
+  destruct (traverse_clean p d' F r x1 (explode_clean _ _ _ He) (explode_nodup_tree fe fs d d' Hd He) Ht Hx1) as (n & -> & <-).
+  exists n. split; [reflexivity | exact Hv].
+Qed.
+
+Theorem three_routes_on_domain fs d v p x :
+  merge_simple_doc fs d = true -> resolve fs d = Some v -> vget p v = Some x ->
+  (forall F r, traverse F d p = ROk r ->
+     exists n, r = TNode n /\ forall fe n', explode fe n = ROk n' -> veq (value_of n') x)
+  /\ (forall fe d' F r, explode fe d = ROk d' -> traverse F d' p = ROk r -> exists n, r = TNode n /\ veq (value_of n) x)
+  /\ (forall fe d', explode fe d = ROk d' -> exists x1, vget p (value_of d') = Some x1 /\ veq x1 x).
+Proof.
+  intros Hd Hr Hg. destruct (routes_agree_on_domain fs d v p x Hd Hr Hg) as [H1 H3].
+  split; [exact H1|]. split; [|exact H3].
+  intros fe d' F r He Ht. eapply route2_on_domain; eassumption.
+Qed.
